@@ -1,0 +1,47 @@
+//go:build verif
+
+package build
+
+// Contracts for the deductive verifier in /verif (govc). Comments only; compiled solely with -tags verif.
+
+// ---------------------------------------------------------------------------------------------
+// Declared output hashes (C35)
+//
+// outputHash reads the file system; hashOf is its (uninterpreted) value for the current file-system
+// state, which is assumed not to change during one check.
+//@ spec hashOf(target *core.BuildTarget, outputs []string, hasher *fs.PathHasher, combine bool) []byte
+//@ assume func outputHash
+//@   modifies nothing
+//@   ensures value: result0 == hashOf(target, outputs, hasher, combine != nil)
+//
+//@ spec hashOK(target *core.BuildTarget, hashes []string, outputs []string, hasher *fs.PathHasher, combine bool) bool = \
+//@      exists j int :: 0 <= j && j < len(hashes) && len(hashes[j]) == hasher.Size() * 2 && \
+//@      hashes[j] == hex.EncodeToString(hashOf(target, outputs, hasher, combine))
+//@ spec anyHasherOK(target *core.BuildTarget, hashes []string, outputs []string, hashers []*fs.PathHasher, combine bool) bool = \
+//@      exists i int :: 0 <= i && i < len(hashers) && hashOK(target, hashes, outputs, hashers[i], combine)
+//
+//@ func checkRuleHashesOfType
+//@   requires target != nil
+//@   requires forall i int :: 0 <= i && i < len(hashers) ==> hashers[i] != nil
+//@   modifies nothing
+//@   invariant "range hashers" none: forall k int :: 0 <= k && k < idx ==> !hashOK(target, hashes, outputs, hashers[k], combine)
+//@   invariant "range hashers" len: len(validHashes) == len(hashers)
+//@   invariant "range hashes" none: forall k int :: 0 <= k && k < idx ==> \
+//@      !(len(hashes[k]) == hasher.Size() * 2 && hashes[k] == hashString)
+//@   ensures exact [C35]: result1 == anyHasherOK(target, hashes, outputs, hashers, combine)
+//
+// The declared values, algorithm prefixes aside: direct match with the already computed hash, or a match of
+// the right length with one of the configured algorithms.
+//@ spec declaredOK(target *core.BuildTarget, decl []string, outs []string, hashers []*fs.PathHasher, combine bool, hash []byte) bool = \
+//@      (exists j int :: 0 <= j && j < len(decl) && core.unprefixed(decl[j]) == hex.EncodeToString(hash)) || \
+//@      (exists i int, j int :: 0 <= i && i < len(hashers) && 0 <= j && j < len(decl) && \
+//@         len(core.unprefixed(decl[j])) == hashers[i].Size() * 2 && \
+//@         core.unprefixed(decl[j]) == hex.EncodeToString(hashOf(target, outs, hashers[i], combine)))
+//
+//@ func checkRuleHashes
+//@   requires state != nil && target != nil
+//@   requires forall i int :: 0 <= i && i < len(state.OutputHashCheckers()) ==> state.OutputHashCheckers()[i] != nil
+//@   invariant "range hashes" none: forall k int :: 0 <= k && k < idx ==> hashes[k] != hashStr
+//@   ensures nohashes [C35]: len(old(target.Hashes)) == 0 ==> result == nil
+//@   ensures exact [C35]: len(old(target.Hashes)) != 0 ==> ((result == nil) == declaredOK(target, old(target.Hashes), \
+//@      old(target.FullOutputs()), old(state.OutputHashCheckers()), len(old(target.FullOutputs())) != 1, hash))
